@@ -617,3 +617,20 @@ Proof.
   destruct (Hown _ _ Hn) as (A & _ & C).
   destruct Hp as [Hp|Hp]; rewrite Hp in Hrec, A, C; cbn in A, C; intuition.
 Qed.
+
+(* C11_restart indexed by the reloader's program counter instead of "it has started a child" (audit-2 M7):
+   this form also speaks about a restart to the EMPTY configuration, where no child is ever started.
+   [spawned]: its stopAllRunnables has created the Stop workers; [stopped]: wg.Wait() has returned;
+   [launched]: its boot has launched the goroutines of the new configuration. *)
+Lemma restart_reload_pc P s k r :
+  reach P s -> nth_error (reloaders s) k = Some r -> r_path r = PRestart ->
+  (spawned (r_pc r) = true -> map w_child (wof (ORel k) s) = map fst (rev (r_old r))) /\
+  (spawned (r_pc r) = false -> wof (ORel k) s = []) /\
+  (stopped (r_pc r) = true -> forallb wdone (wof (ORel k) s) = true) /\
+  (launched (r_pc r) = true -> map k_child (kof (ORel k) s) = map fst (r_new r)) /\
+  (launched (r_pc r) = false -> kof (ORel k) s = []).
+Proof.
+  intros Hr Hn Hp. destruct (proto_reach P s Hr) as (_ & _ & Hown).
+  destruct (Hown _ _ Hn) as (A & B & C). rewrite Hp in A, B, C. cbn in A, B, C.
+  repeat split; intros H; rewrite ?H in *; auto.
+Qed.
